@@ -60,6 +60,8 @@ class LexModel:
         self.error_rule: Optional[ast.FunctionDef] = None
         self._collect_rules()
         self.by_name: Dict[str, Rule] = {r.name: r for r in self.rules}
+        self.retypes: List[Tuple[str, str, str]] = []  # (rule, token text, token type)
+        self._derive_retypes()
         ts = repo.folder("lexer", "TokenStream")
         self.discard: Set[str] = set(ts.get("_discard_types"))
         self.discard_nonl: Set[str] = set(ts.get("_discard_types_except_newline"))
@@ -240,6 +242,49 @@ class LexModel:
                     if ch is not None and ch[-1] == "lineno":
                         r.lineno_updates.append(st)  # type: ignore[arg-type]
 
+    def _derive_retypes(self) -> None:
+        """Which token texts a rule function re-types, and to what.  Shapes the
+        model follows: ``t.type = t.value`` under ``t.value in self.<set>`` and
+        ``t.type = self.<dict>.get(t.value, t.type)`` / ``self.<dict>[t.value]``.
+        Anything else is refused (exit 2) rather than guessed."""
+        for r in self.rules:
+            if r.kind != "fn" or not r.type_stores:
+                continue
+            fn: ast.FunctionDef = r.node  # type: ignore
+            tname = fn.args.args[1].arg
+            for st in r.type_stores:
+                v = st.value  # type: ignore[attr-defined]
+                if attr_chain(v) == (tname, "value"):
+                    p = self.lexer.parent.get(st)
+                    src = None
+                    while p is not None and p is not fn:
+                        if isinstance(p, ast.If):
+                            c = p.test
+                            if isinstance(c, ast.Compare) and len(c.ops) == 1 and isinstance(c.ops[0], ast.In) and attr_chain(c.left) == (tname, "value") and any(x is st for b in p.body for x in ast.walk(b)):
+                                ch = attr_chain(c.comparators[0])
+                                if ch and len(ch) == 2 and ch[0] == "self":
+                                    src = ch[1]
+                        p = self.lexer.parent.get(p)
+                    if src is None:
+                        raise AnalysisError(f"{r.name} re-types tokens to their own text without a membership test the model can follow")
+                    vals = self.F.get(src)
+                    for k in vals:
+                        self.retypes.append((r.name, k, k))
+                    continue
+                d = None
+                if isinstance(v, ast.Call) and isinstance(v.func, ast.Attribute) and v.func.attr == "get" and v.args and attr_chain(v.args[0]) == (tname, "value"):
+                    ch = attr_chain(v.func.value)
+                    if ch and len(ch) == 2 and ch[0] == "self":
+                        d = self.F.get(ch[1])
+                if isinstance(v, ast.Subscript) and attr_chain(v.slice) == (tname, "value"):
+                    ch = attr_chain(v.value)
+                    if ch and len(ch) == 2 and ch[0] == "self":
+                        d = self.F.get(ch[1])
+                if not isinstance(d, dict):
+                    raise AnalysisError(f"{r.name} re-types tokens in a way the lexer model does not follow: `{norm(st)}`")
+                for k, t in d.items():
+                    self.retypes.append((r.name, k, t))
+
     # ------------------------------------------------------------------
     def auto(self, name: str) -> Auto:
         return self.by_name[name].auto(self.reflags)
@@ -257,8 +302,7 @@ class LexModel:
             if r.delivers:
                 out.add(r.tokname)
         out |= set(self.literals)
-        if "t_NAME" in self.by_name and self.by_name["t_NAME"].type_stores:
-            out |= self.keywords
+        out |= {t for _, _, t in self.retypes}
         return out
 
     def stream_types(self) -> Set[str]:
